@@ -2,12 +2,17 @@
 
 Tie: functional correspondence, cell by cell, between deephyper.ensemble.aggregator.{Mean,MixedNormal,MixedCategorical,Mode}Aggregator
 and the extracted Coq model (coq/theories/C19_Aggregators/Model.v) on exact rationals:
-  * dyadic inputs whose (remaining) weight sum is a power of two  -> EXACT equality of every statistic that involves neither sqrt nor log;
+  * dyadic inputs whose total AND remaining (unmasked) weight sums are powers of two -> EXACT equality of every statistic that
+    involves neither sqrt nor log (loc, class probabilities, confidence total/aleatoric/epistemic, mode uncertainty);
   * everything else -> |impl - model| <= 1e-9 * (1 + magnitude of the terms that cancel).
 sqrt is never compared: the returned standard deviations are squared and compared with the model's variances.
 log is an oracle: the model receives the values log(p + eps) computed by numpy next to every probability.
 The PROPERTY clauses are decided on the implementation's outputs by the extracted checkers of Check.v (ok_close, ok_between,
-ok_variance_split, ok_distribution, ok_conf_range, ok_decomp, ok_mode); the harness only prepares their arguments.
+ok_variance_split, ok_distribution, ok_conf_range, ok_decomp, ok_mode); the harness only prepares their arguments.  In every
+case the oracles run first (direct clauses, then the metamorphic pairs), the correspondence with the model last, so that a
+property failure is reported as such (kind=oracle) and not shadowed by a correspondence break.
+Failures that follow the Coq models of the pre-fix behaviour (mn_epi_today, counts_today, counts_mid) carry that fact in their
+signature (today=..., today_normalised=..., today_masked_vote=...): this is what known_findings.json matches on.
 """
 from fractions import Fraction
 
@@ -30,10 +35,12 @@ ASSUMPTIONS = [
     "weights are >= 0 with a positive sum over the unmasked members of every cell (all-zero weights raise ZeroDivisionError in np.average: recorded by the malformed stream, outside the property)",
     "categorical / mode predictions are masked row-wise (a member's whole class vector for a sample), as OnlineSelector builds them; loc and scale of a normal member carry the same mask",
     "finite float inputs (no NaN / inf)",
+    "a cell whose unmasked members all have weight 0 is undefined (numpy.ma: masked, or NaN for 0-d arrays) and is skipped",
 ]
 RULE = ("per aggregator: members 1..8, sample shapes 0-d..3-d, weights None/uniform/normalised/unnormalised/with zeros/dyadic, plain and masked, dyadic and "
-        "general floats, from the seed; every case runs every option of the aggregator plus the metamorphic variants (None vs uniform weights, a permutation "
-        "of members with weights, junk under the mask, masked member removed). non-trivial = at least 2 members and (non-uniform weights or a mask)")
+        "general floats (plus 'members agree, scale ~ 0' for MixedNormal), from the seed; every case runs every option of the aggregator plus the metamorphic "
+        "variants (None vs uniform weights, a permutation of members with weights, junk under the mask, a fully masked member removed, zero-weight members "
+        "removed, one member split into two with 1/4 and 3/4 of its weight). non-trivial = at least 2 members and (non-uniform weights or a mask)")
 
 F_MEAN, F_MN, F_CONF, F_ENT, F_MODE, F_MODE_TODAY = 1901, 1902, 1903, 1904, 1905, 1906
 F_CLOSE, F_BETWEEN, F_VSPLIT, F_DISTR, F_CONFR, F_DECOMP, F_OKMODE = 1907, 1908, 1909, 1910, 1911, 1912, 1913
